@@ -457,7 +457,10 @@ def pPrimary (fuel : Nat) (ts : List Tok) : P Expr :=
     | .var x :: rest => some (.var x, rest)
     | .punct "(" :: rest =>
       match pPipe fuel rest with
-      | some (e, .punct ")" :: rest') => some (e, rest')
+      -- parentheses are dropped, except that `(.)`, `(.a)`, `(.[0])`, `(tostring)` stay distinguishable
+      -- from the bare forms (as the equivalent `. | e`): succinctly answers only the bare forms directly
+      -- on a `reduce`/`foreach` state (`foldFastPath`)
+      | some (e, .punct ")" :: rest') => some (if foldFastPath e then .pipe .identity e else e, rest')
       | _ => none
     | .punct "[" :: .punct "]" :: rest => some (.arr none, rest)
     | .punct "[" :: rest =>
@@ -606,11 +609,30 @@ def pObjEntries (fuel : Nat) (ts : List Tok) (acc : List (Expr × Expr)) : P Exp
     | _ => none
 end
 
+def isP (c : String) : Tok → Bool
+  | .punct s => s == c
+  | _ => false
+
+/-- `-` directly before a number inside a string interpolation (succinctly folds it into the literal
+there as well; the token-level mirror `foldNegTokens` works on the top level only) -/
+def interpNeg (fuel : Nat) (ts : List Tok) (inInterp : Bool) : Bool :=
+  match fuel with
+  | 0 => false
+  | fuel + 1 =>
+    (inInterp && (ts.zip (ts.drop 1)).any (fun (a, b) => isP "-" a && (match b with | .num _ => true | _ => false))) ||
+    ts.any fun t =>
+      match t with
+      | .str parts => parts.any fun (_, o) => match o with | some ts' => interpNeg fuel ts' true | none => false
+      | _ => false
+
 def parseProgram (s : String) (foldNeg : Bool := false) : Option Expr :=
   match tokenize s with
   | none => none
   | some toks0 =>
     let toks := if foldNeg then foldNegTokens none toks0 else toks0
+    -- succinctly reads `-T??` as `(-(T?))?` (jq: `-((T?)?)`): no verdict on `??` in a program with a minus
+    if foldNeg && interpNeg 50 toks0 false then none else
+    if foldNeg && toks.any (isP "-") && (toks.zip (toks.drop 1)).any (fun (a, b) => isP "?" a && isP "?" b) then none else
     match pPipe (toks.length * 4 + 50) toks with
     | some (e, []) => some e
     | _ => none
